@@ -151,7 +151,7 @@ def run(ctx) -> None:
                         f"handler at L{hnode.lineno} ends in {bad_exit}", loc=fn.loc(hnode.ast), what=what)
             else:
                 ctx.ok("R2", what + f" [{', '.join(sorted(oc))}]")
-    ctx.floor("R2", "handlers guarding rewrite validation", n_handlers, 5)
+    ctx.floor("R2", "handlers guarding rewrite validation", n_handlers, 3)
 
     # ---------------------------------------------------------------- R3
     cfg = cfgs.get("cli._update")
